@@ -75,10 +75,13 @@ type ToolRun struct {
 	FakeMode  string // "" = no fake go in PATH at all (tool absent)
 	Listing   string
 	K         int
-	KillAfter bool     // mode block: wait for the fake tool's signal, let writes settle, SIGKILL the process group
-	Strace    []string // extra strace arguments (fault injection); empty = no strace
-	Stdin     string
-	Timeout   time.Duration
+	KillAfter bool // mode block: wait for the fake tool's signal, let writes settle, SIGKILL the process group
+	// WhileBlocked, if set, runs after the tool signalled and the cache settled, before the kill
+	// (an overlapping second run).
+	WhileBlocked func()
+	Strace       []string // extra strace arguments (fault injection); empty = no strace
+	Stdin        string
+	Timeout      time.Duration
 }
 
 type ToolResult struct {
@@ -165,6 +168,9 @@ func (th *ToolHome) Run(tr ToolRun) (*ToolResult, error) {
 				}
 			}
 			res.CacheAtKill = th.CacheFiles()
+			if tr.WhileBlocked != nil {
+				tr.WhileBlocked()
+			}
 			res.Killed = true
 			killGroup()
 			<-done
